@@ -538,6 +538,30 @@ hwloc_get_common_ancestor_obj (hwloc_topology_t topology __hwloc_attribute_unuse
    * and obj2->parent. Also, even if at some point we find ancestors of
    * of the same depth, their ancestors may have different depth again.
    */
+  if (obj1->depth < 0 || obj2->depth < 0) {
+    /* memory, I/O and Misc objects have special negative depths that cannot
+     * be compared with normal depths, compare the distances to the root instead.
+     */
+    unsigned dist1 = 0, dist2 = 0;
+    hwloc_obj_t tmp;
+    for(tmp = obj1; tmp->parent; tmp = tmp->parent)
+      dist1++;
+    for(tmp = obj2; tmp->parent; tmp = tmp->parent)
+      dist2++;
+    while (dist1 > dist2) {
+      obj1 = obj1->parent;
+      dist1--;
+    }
+    while (dist2 > dist1) {
+      obj2 = obj2->parent;
+      dist2--;
+    }
+    while (obj1 != obj2) {
+      obj1 = obj1->parent;
+      obj2 = obj2->parent;
+    }
+    return obj1;
+  }
   while (obj1 != obj2) {
     while (obj1->depth > obj2->depth)
       obj1 = obj1->parent;
